@@ -1,6 +1,7 @@
 (* C18 — keys, signatures, addresses and number encodings obey their algebra.
    Statements only; every proof is [exact lemma]. *)
 From NG Require Import Common.Tactics Codec.Bigint Codec.BigintProofs.
+From NG Require Import Codec.Base58 Codec.Base58Proofs Codec.Fixed Codec.FixedProofs Codec.UintStr Codec.Merkle Codec.MerkleProofs Codec.Multisig Codec.MultisigProofs.
 Open Scope Z_scope.
 
 (* VM integers decode back to exactly what was encoded *)
@@ -32,3 +33,195 @@ Print Assumptions C18_fits256_iff_len.
 (* non-vacuity: a concrete boundary value *)
 Example C18_bigint_example : to_bytes (- 2 ^ 255) = repeat 0 31 ++ [128] /\ from_bytes (repeat 0 31 ++ [128]) = - 2 ^ 255.
 Proof. split; vm_compute; reflexivity. Qed.
+
+(* ---------- Base58, Base58Check, addresses ---------- *)
+
+(* leading zero bytes included; the empty byte string is excluded because Decode("") is an error *)
+Theorem C18_base58_roundtrip : forall bs, bytes_ok bs -> bs <> [] -> b58_decode (b58_encode bs) = Some bs.
+Proof. exact base58_roundtrip. Qed.
+Print Assumptions C18_base58_roundtrip.
+
+(* the other way, on every valid string: it re-encodes to itself (each byte string has exactly one Base58 form) *)
+Theorem C18_base58_roundtrip_rev : forall s bs, b58_decode s = Some bs -> b58_encode bs = s /\ bytes_ok bs.
+Proof. exact base58_roundtrip_rev. Qed.
+Print Assumptions C18_base58_roundtrip_rev.
+
+Theorem C18_base58_decode_fails_iff : forall s,
+  b58_decode s = None <-> s = [] \/ exists c, In c s /\ digit_of_char c = None.
+Proof. exact b58_decode_none_iff. Qed.
+Print Assumptions C18_base58_decode_fails_iff.
+
+(* Base58Check over any 4-byte checksum function (hash.Checksum = first four bytes of the double SHA-256) *)
+Theorem C18_base58check_roundtrip : forall (checksum : list Z -> list Z),
+  (forall b, length (checksum b) = 4%nat) -> (forall b, bytes_ok (checksum b)) ->
+  forall b, bytes_ok b -> b <> [] -> check_decode checksum (check_encode checksum b) = Some b.
+Proof. exact check_roundtrip. Qed.
+Print Assumptions C18_base58check_roundtrip.
+
+Theorem C18_base58check_roundtrip_rev : forall (checksum : list Z -> list Z),
+  (forall b, length (checksum b) = 4%nat) -> (forall b, bytes_ok (checksum b)) ->
+  forall s b, check_decode checksum s = Some b -> check_encode checksum b = s.
+Proof. exact check_roundtrip_rev. Qed.
+Print Assumptions C18_base58check_roundtrip_rev.
+
+Theorem C18_address_roundtrip : forall (checksum : list Z -> list Z),
+  (forall b, length (checksum b) = 4%nat) -> (forall b, bytes_ok (checksum b)) ->
+  forall prefix u, bytes_ok (prefix :: u) -> length u = 20%nat ->
+  addr_decode checksum prefix (addr_encode checksum prefix u) = Some u.
+Proof. exact addr_roundtrip. Qed.
+Print Assumptions C18_address_roundtrip.
+
+(* everything the address decoder accepts is a 20-byte hash whose address is the string that was read *)
+Theorem C18_address_decode_sound : forall (checksum : list Z -> list Z),
+  (forall b, length (checksum b) = 4%nat) -> (forall b, bytes_ok (checksum b)) ->
+  forall p s u, addr_decode checksum p s = Some u -> length u = 20%nat /\ addr_encode checksum p u = s.
+Proof. exact addr_decode_sound. Qed.
+Print Assumptions C18_address_decode_sound.
+
+Example C18_base58_example :
+  b58_encode [0; 0; 1; 2] = [49; 49; 53; 84] /\ b58_decode [49; 49; 53; 84] = Some [0; 0; 1; 2] /\ b58_decode [49; 49; 49] = Some [0; 0; 0].
+Proof. repeat split; vm_compute; reflexivity. Qed.
+
+(* ---------- fixed-point decimals ---------- *)
+
+(* every integer at every precision, negative fractions included *)
+Theorem C18_fixed_roundtrip : forall v prec, from_string (to_string v prec) prec = Some v.
+Proof. exact fixed_roundtrip. Qed.
+Print Assumptions C18_fixed_roundtrip.
+
+Theorem C18_fixed_canonical : forall s p v, from_string s p = Some v -> from_string (to_string v p) p = Some v.
+Proof. exact fixed_canonical. Qed.
+Print Assumptions C18_fixed_canonical.
+
+Theorem C18_fixed8_roundtrip : forall v, - 2 ^ 63 < v < 2 ^ 63 -> fixed8_from_string (fixed8_string v) = Some v.
+Proof. exact fixed8_roundtrip. Qed.
+Print Assumptions C18_fixed8_roundtrip.
+
+Example C18_fixed_example :
+  to_string (-50000000) 8 = [45; 48; 46; 53] /\ from_string [45; 48; 46; 53] 8 = Some (-50000000) /\ to_string 1 8 = [48; 46; 48; 48; 48; 48; 48; 48; 48; 49].
+Proof. repeat split; vm_compute; reflexivity. Qed.
+
+(* ---------- Uint160 / Uint256 forms ---------- *)
+
+Theorem C18_hex_roundtrip : forall b, bytes_ok b -> hex_decode (hex_encode b) = Some b.
+Proof. exact hex_roundtrip. Qed.
+Print Assumptions C18_hex_roundtrip.
+
+Theorem C18_uint_string_be_roundtrip : forall n u, bytes_ok u -> length u = n -> decode_string_be n (string_be u) = Some u.
+Proof. exact uint_string_be_roundtrip. Qed.
+Print Assumptions C18_uint_string_be_roundtrip.
+
+Theorem C18_uint_string_le_roundtrip : forall n u, bytes_ok u -> length u = n -> decode_string_le n (string_le u) = Some u.
+Proof. exact uint_string_le_roundtrip. Qed.
+Print Assumptions C18_uint_string_le_roundtrip.
+
+Theorem C18_uint_bytes_le_roundtrip : forall n u, length u = n -> decode_bytes_le n (bytes_le u) = Some u.
+Proof. exact uint_bytes_le_roundtrip. Qed.
+Print Assumptions C18_uint_bytes_le_roundtrip.
+
+Theorem C18_uint_reverse_involutive : forall u, reverse (reverse u) = u.
+Proof. exact uint_reverse_involutive. Qed.
+Print Assumptions C18_uint_reverse_involutive.
+
+Theorem C18_uint_le_is_reverse_be : forall u, string_le u = string_be (reverse u).
+Proof. exact uint_le_is_reverse_be. Qed.
+Print Assumptions C18_uint_le_is_reverse_be.
+
+Theorem C18_uint_json_roundtrip : forall n u, bytes_ok u -> length u = n -> json_decode n (json_string u) = Some u.
+Proof. exact uint_json_roundtrip. Qed.
+Print Assumptions C18_uint_json_roundtrip.
+
+(* every accepted string denotes a value whose canonical string is the lower-case input *)
+Theorem C18_uint_decode_string_sound : forall n s u, decode_string_be n s = Some u ->
+  length u = n /\ bytes_ok u /\ string_be u = lowercase s.
+Proof. exact uint_decode_string_be_sound. Qed.
+Print Assumptions C18_uint_decode_string_sound.
+
+Example C18_uint_example : decode_string_le 20 (string_le ex_u160) = Some ex_u160 /\ string_le ex_u160 <> string_be ex_u160.
+Proof. split; [vm_compute; reflexivity|vm_compute; discriminate]. Qed.
+
+(* ---------- Merkle root: for every hash function, every list length ---------- *)
+
+(* CalcMerkleRoot (in place on the caller's slice, slot i overwritten after slots 2i, 2i+1 were read) computes the
+   recursively defined pairwise root, odd levels duplicating their last element *)
+Theorem C18_merkle_eq_recursive : forall (hash : Type) (H : hash -> hash -> hash) (zero : hash) (l : list hash),
+  calc_merkle_root hash H zero l = merkle_root hash H zero l.
+Proof. exact merkle_inplace_eq_recursive. Qed.
+Print Assumptions C18_merkle_eq_recursive.
+
+(* one in-place pass leaves exactly the pair level in the prefix of the scratch array *)
+Theorem C18_merkle_inplace_level : forall (hash : Type) (H : hash -> hash -> hash) (zero : hash) (a : list hash),
+  (2 <= length a)%nat ->
+  firstn ((length a + 1) / 2) (inplace_loop hash H zero (length a) ((length a + 1) / 2) 0 a) = pair_level hash H a.
+Proof. exact inplace_level_correct. Qed.
+Print Assumptions C18_merkle_inplace_level.
+
+(* NewMerkleTree builds a well-formed tree whose root hash is the same value *)
+Theorem C18_merkle_tree_eq_recursive : forall (hash : Type) (H : hash -> hash -> hash) (zero : hash) (l : list hash),
+  l <> [] -> exists t, new_merkle_tree hash H zero l = Some t /\ tree_root t = merkle_root hash H zero l /\ tree_wf hash H t.
+Proof. exact new_merkle_tree_correct. Qed.
+Print Assumptions C18_merkle_tree_eq_recursive.
+
+(* the level-wise definition is a genuine binary-tree recursion: root = H (left subtree) (right subtree), a missing right
+   subtree being a copy of the left one *)
+Theorem C18_merkle_root_is_tree_recursion : forall (hash : Type) (H : hash -> hash -> hash) (zero : hash) (d : nat) (l : list hash),
+  l <> [] -> (length l <= 2 ^ d)%nat -> (d = 0%nat \/ (2 ^ (d - 1) < length l)%nat) ->
+  merkle_root hash H zero l = sub_root hash H zero d l.
+Proof. exact merkle_root_eq_sub_root. Qed.
+Print Assumptions C18_merkle_root_is_tree_recursion.
+
+(* ---------- multi-signature check: every schedule of the parallel checker ---------- *)
+
+(* the sequential in-order matcher accepts exactly when an order-preserving injective matching exists *)
+Theorem C18_seq_match_iff_matching : forall (K Sg : Type) (verify : K -> Sg -> bool) keys sigs,
+  seq_match verify keys sigs = true <-> matching verify keys sigs.
+Proof. exact seq_match_iff_matching. Qed.
+Print Assumptions C18_seq_match_iff_matching.
+
+Theorem C18_matching_iff_index_matching : forall (K Sg : Type) (verify : K -> Sg -> bool) keys sigs,
+  matching verify keys sigs <-> index_matching verify keys sigs.
+Proof. exact matching_iff_index_matching. Qed.
+Print Assumptions C18_matching_iff_index_matching.
+
+(* EVERY arrival order of worker results: whatever run of the interleaving system terminates, it returns the sequential answer *)
+Theorem C18_multisig_schedule_free : forall (K Sg : Type) (verify : K -> Sg -> bool) (keys : list K) (sigs : list Sg),
+  (2 <= length sigs <= length keys)%nat ->
+  forall b, run verify keys sigs (init keys sigs) b -> b = seq_match verify keys sigs.
+Proof. exact multisig_schedule_free. Qed.
+Print Assumptions C18_multisig_schedule_free.
+
+(* no deadlock, no blocked send, termination: at most two tasks are in flight (the capacity of the task channel), every
+   in-flight result can be delivered, and every delivery decreases the measure *)
+Theorem C18_multisig_progress : forall (K Sg : Type) (verify : K -> Sg -> bool) (keys : list K) (sigs : list Sg),
+  (2 <= length sigs <= length keys)%nat ->
+  forall c st, steps verify keys sigs c (init keys sigs) st ->
+  (1 <= length (inflight st) <= 2)%nat /\ taskCount st = length (inflight st) /\
+  (k1 st < k2 st < length keys)%nat /\ (s1 st < s2 st < length sigs)%nat /\
+  (c + measure st = length keys + 1)%nat /\ (2 <= measure st)%nat /\
+  (forall j, (j < length (inflight st))%nat ->
+     exists o, deliver verify keys sigs j st = Some o /\ o <> Crash /\
+               (forall st', o = Running st' -> (measure st' + 1 = measure st)%nat)).
+Proof. exact multisig_progress. Qed.
+Print Assumptions C18_multisig_progress.
+
+(* the executable form used by the correspondence: for every schedule *)
+Theorem C18_multisig_par_check_correct : forall (K Sg : Type) (verify : K -> Sg -> bool) (keys : list K) (sigs : list Sg),
+  (2 <= length sigs <= length keys)%nat ->
+  forall sched, par_check verify sched keys sigs = Some (seq_match verify keys sigs).
+Proof. exact par_check_correct. Qed.
+Print Assumptions C18_multisig_par_check_correct.
+
+(* the property's sentence: accepted exactly when the signatures can be matched to keys in order, whatever the schedule *)
+Theorem C18_multisig_accepts_iff_matching : forall (K Sg : Type) (verify : K -> Sg -> bool) (keys : list K) (sigs : list Sg),
+  (1 <= length sigs <= length keys)%nat ->
+  forall sched, exists b, par_check verify sched keys sigs = Some b /\ (b = true <-> matching verify keys sigs).
+Proof. exact multisig_accepts_iff_matching. Qed.
+Print Assumptions C18_multisig_accepts_iff_matching.
+
+(* non-vacuity: repeated keys, two schedules that verify different (key, signature) pairs and agree *)
+Example C18_multisig_example :
+  par_check Nat.eqb [] [1; 2; 2; 3; 4]%nat [2; 2; 4]%nat = Some true /\
+  par_check Nat.eqb [1; 1; 1; 1]%nat [1; 2; 2; 3; 4]%nat [2; 2; 4]%nat = Some true /\
+  par_check Nat.eqb [1; 0; 1]%nat [1; 2; 2; 3; 4]%nat [2; 4; 2]%nat = Some false /\
+  seq_match Nat.eqb [1; 2; 2; 3; 4]%nat [2; 9; 4]%nat = false.
+Proof. repeat split; vm_compute; reflexivity. Qed.
